@@ -228,8 +228,29 @@ func Run(p Project) (res Result) {
 	return RunIn(p, dir)
 }
 
+// RunWithOptions runs a single-file project with caller-built option values
+// (for checks about option values that are reused between runs).
+func RunWithOptions(src string, oo ...core.Option) (res Result) {
+	return runWith(Single(src), "", oo)
+}
+
+// BanOption builds one WithBannedDirectives option value from kind names.
+func BanOption(kinds ...string) core.Option {
+	var dd []directive.Enumeration
+	for _, b := range kinds {
+		if e, ok := kindByName[b]; ok {
+			dd = append(dd, e)
+		}
+	}
+	return core.WithBannedDirectives(dd...)
+}
+
 // RunIn runs the project from dir ("" = virtual single file, no disk).
 func RunIn(p Project, dir string) (res Result) {
+	return runWith(p, dir, p.options())
+}
+
+func runWith(p Project, dir string, opts []core.Option) (res Result) {
 	stage := "new"
 	defer func() {
 		if r := recover(); r != nil {
@@ -244,13 +265,13 @@ func RunIn(p Project, dir string) (res Result) {
 	var j kit.JApi
 	if dir != "" {
 		var err error
-		j, err = kit.NewJapi(filepath.Join(dir, p.Root), p.options()...)
+		j, err = kit.NewJapi(filepath.Join(dir, p.Root), opts...)
 		if err != nil {
 			res.OpenErr = err.Error()
 			return res
 		}
 	} else {
-		j = kit.NewJApiFromFile(fs.NewFile(filepath.Join("/nonexistent-verif", p.Root), []byte(p.Files[p.Root])), p.options()...)
+		j = kit.NewJApiFromFile(fs.NewFile(filepath.Join("/nonexistent-verif", p.Root), []byte(p.Files[p.Root])), opts...)
 	}
 	stage = "validate"
 	if je := j.ValidateJAPI(); je != nil {
